@@ -9,6 +9,7 @@
 (*   "close"   accept, send nothing, close                                 *)
 (*   "frames"  accept, send complete frames, close                         *)
 (*   "partial" accept, send frames and a partial last line, reset          *)
+(*   "partialfin" the same, but the connection is closed, not reset        *)
 (*   "junk"    accept, send junk bytes and a frame, close                  *)
 (*   "healthy" accept, send frames, stay up                                *)
 (* Frames are abstracted to the aircraft they belong to (the decoding is   *)
